@@ -189,7 +189,7 @@ class GraphOps:
         used(self.it, NX_AX + 'descendants_at_distance(G, n, 1) is the set {c | (n, c) is an edge of G}')
         return SymSet.comprehension(self.st, c, self.edge_in(g, n, c), 'succset')
 
-    def topological_sort(self, g):
+    def topological_sort(self, g, by_generation=True):
         st = self.st
         s = self.node_set(g)
         seq = self.it.models.enumerate_set(self.it, s, 'topo')
@@ -200,10 +200,14 @@ class GraphOps:
         st.assume(FA([i, j], z3.Implies(z3.And(i >= 0, j >= 0, i < seq.len, j < seq.len,
                                                       self.edge_in(g, seq.at(i), seq.at(j))), i < j),
                             patterns=[self.edge_trigger(g, seq.at(i), seq.at(j))]))
-        # generation order (topological_sort is implemented by topological_generations): non-decreasing depth
+        # generation order (topological_sort is implemented by topological_generations): non-decreasing depth;
+        # lexicographical_topological_sort is *some* topological order (smallest available id first): no such guarantee
         depth = self.depth_fn(g)
-        st.assume(FA([i, j], z3.Implies(z3.And(i >= 0, i < j, j < seq.len), depth(seq.at(i)) <= depth(seq.at(j))),
-                            patterns=[z3.MultiPattern(seq.at(i), seq.at(j))]))
+        if by_generation:
+            st.assume(FA([i, j], z3.Implies(z3.And(i >= 0, i < j, j < seq.len), depth(seq.at(i)) <= depth(seq.at(j))),
+                                patterns=[z3.MultiPattern(seq.at(i), seq.at(j))]))
+        else:
+            used(self.it, NX_AX + 'lexicographical_topological_sort(G) yields every node once, predecessors before successors')
         st.ghost.setdefault('topo', {})[id(seq)] = (g, depth)
         seq.graph = g
         seq.depth = depth
@@ -406,6 +410,7 @@ class GraphPlugin:
     def lib_value(self, it, dotted):
         fns = {
             'networkx.topological_sort': self.nx_topological_sort,
+            'networkx.lexicographical_topological_sort': self.nx_lexicographical_topological_sort,
             'networkx.descendants_at_distance': self.nx_descendants_at_distance,
             'networkx.all_simple_paths': self.nx_all_simple_paths,
             'networkx.subgraph_view': self.nx_subgraph_view,
@@ -429,6 +434,11 @@ class GraphPlugin:
 
     def nx_topological_sort(self, it, ca):
         return GraphOps(it).topological_sort(ca.args[0])
+
+    def nx_lexicographical_topological_sort(self, it, ca):
+        if ca.kwargs.get('key') is not None or len(ca.args) > 1:
+            raise Unsupported('lexicographical_topological_sort with a key')
+        return GraphOps(it).topological_sort(ca.args[0], by_generation=False)
 
     def nx_descendants_at_distance(self, it, ca):
         g, n, dist = ca.args
